@@ -302,7 +302,13 @@ def run(P, R, tier):
         if norm(r_.value) == 'None':
             may_none = True
         elif isinstance(r_.value, ast.Name):
-            may_none = may_none or any(d[0] == 'expr' and norm(d[1]) == 'None' for d in astq.assignments(reader, r_.value.id))
+            # the answer for a dataset WITHOUT metadata is the value the name has when no conditional block ran: its assignments at the top level of the body
+            # (a `= None` inside a guard for some other situation - e.g. the row-count guard of D31 - says nothing about that path)
+            top = [st for st in reader.node.body if isinstance(st, ast.Assign) and any(isinstance(t_, ast.Name) and t_.id == r_.value.id for t_ in st.targets)]
+            if top:
+                may_none = may_none or norm(top[-1].value) == 'None'
+            else:
+                may_none = may_none or any(d[0] == 'expr' and norm(d[1]) == 'None' for d in astq.assignments(reader, r_.value.id))
     if uses_loader and none_tests:
         R.check(may_none, 'C12.i', reader, rets[0] if rets else None, 'the loader can answer None ("no recorded bounds"), the sentinel the reader tests for',
                 f'{reader.name} never returns None, but {perform.name} recognises a dataset without recorded bounds by `is None`: with one such dataset in a list the reader keeps the '
